@@ -7,7 +7,7 @@ From TV Require Import Base.I32 Model.RegAlloc Gen.Regs.
 Open Scope Z_scope.
 
 Inductive poolsel :=
-| PGame (l : langid) (g : Z)
+| PGame (l : langid) (g : Z) (hi hf : list Z)   (* hi, hf: the pools the harness generator assumed *)
 | PCustom (pi pf : list Z) (anti_op : Z).
 
 Inductive oarg := OReg (r : Z) | OImm (v : Z).
@@ -28,7 +28,8 @@ Fixpoint tlookup (l : list (N * ty)) (d : N) : option ty :=
 
 Definition cfg_of (p : poolsel) (params : list (option N * ty)) (tys : list (N * ty)) : option cfg :=
   match p with
-  | PGame l g =>
+  | PGame l g hi hf =>
+      if negb (forall2b Z.eqb (gen_general l g TInt) hi && forall2b Z.eqb (gen_general l g TFloat) hf) then None else
       match param_registers (gen_param_reg g) params 0 0 with
       | None => None
       | Some ps =>
@@ -129,9 +130,6 @@ Definition instr_match (x : lstmt) (o : Z * list oarg) : bool :=
   end.
 
 Definition zlist_eqb (a b : list Z) : bool := forall2b Z.eqb a b.
-
-Fixpoint nodupb (l : list Z) : bool :=
-  match l with [] => true | x :: t => negb (memZ x t) && nodupb t end.
 
 Inductive subexp := XOk (s : st) | XComplex | XAntiSub | XPanic | XBad.
 
